@@ -750,6 +750,14 @@ def rule_char_eq_exact(ctx):
     r(ctx)
 
 
+def rule_ascii_fold(ctx):
+    """The one-character ASCII scanner looks for BOTH cases of a letter; which bytes count as letters is the ASCII fold's
+    business: a range that drops a letter (`b'a'..b'z'`) makes the scanner miss the better-placed upper-case occurrence
+    of that letter (shared with C16.ascii / C01)."""
+    from props.c16 import rule_ascii as r
+    r(ctx)
+
+
 def rule_scan_window(ctx):
     """The optimal score is the maximum over the cells of the LAST row only: cells below the column the last row was
     written from belong to shorter prefixes of the needle or to earlier calls, a maximum that includes them can exceed
@@ -768,3 +776,4 @@ def rules(ctx):
     ctx.run_rule("C04.slab-choice", rule_slab_choice)
     ctx.run_rule("C04.prefix-decay", rule_prefix_decay)
     ctx.run_rule("C04.scan-window", rule_scan_window)
+    ctx.run_rule("C04.ascii-fold", rule_ascii_fold)
